@@ -9,7 +9,7 @@ import os
 from fractions import Fraction as Fr
 import vlib
 
-PROOF_MODULES = []     # coq/Assume/*.v are compiled directly by coqc (not yet in _CoqProject)
+PROOF_MODULES = ["Assume/C34Theorems.vo", "Assume/AssumeProofs3.vo"]
 OBLIGATIONS = ["C34/P_assumptions_sound.v", "C34/P_zero_sound.v", "C34/P_nonzero_sound.v", "C34/P_negative_sound.v",
                "C34/P_nonnegative_sound.v", "C34/P_nonpositive_sound.v", "C34/P_positive_sound.v",
                "C34/P_integer_sound.v", "C34/P_real_sound_guarded.v", "C34/P_complex_true_sound_guarded.v",
